@@ -74,7 +74,7 @@ Quarter == <<1, 4>>
 ConstantsOf(b, size) ==
   IF b.fam = "brick" THEN {<<BrickElasticity, IF b.law = "plastic" THEN 2 ELSE 3>>}
   ELSE IF b.law = "elastic" THEN {<<1, 0>>, <<2, 0>>, <<3, 0>>}
-  ELSE IF b.law \in {"norton", "sinh", "shcreep"} THEN IF size = "L" THEN {<<1, 1>>, <<2, 2>>, <<3, 3>>, <<1, 3>>} ELSE {<<1, 1>>, <<2, 3>>}
+  ELSE IF b.law \in {"norton", "sinh", "shcreep", "norton2"} THEN IF size = "L" THEN {<<1, 1>>, <<2, 2>>, <<3, 3>>, <<1, 3>>} ELSE {<<1, 1>>, <<2, 3>>}
   ELSE IF size = "L" THEN {<<1, 1>>, <<1, 2>>, <<2, 2>>, <<3, 1>>} ELSE {<<1, 1>>, <<1, 2>>}
 \* <<theta, dt>> pairs
 TimeSchemes(b, size) ==
